@@ -292,7 +292,7 @@ func runReplay(path string, shrink bool, budget int) (res *replayFile, crashed b
 	var eb, ob bytes.Buffer
 	cmd.Stderr = &limitedWriter{buf: &eb, max: 1 << 20}
 	cmd.Stdout = &ob
-	err := cmd.Run()
+	err := runWithTimeout(cmd, time.Duration(wdSecs+60)*time.Second+time.Duration(budget)*time.Second)
 	exit = 0
 	if err != nil {
 		exit = -1
@@ -865,7 +865,7 @@ func recoverTape(rpath string) []uint32 {
 	os.Remove(mm)
 	cmd := exec.Command(workerBin, "-prop", propID, "-replay", rpath, "-tapemap", mm, "-watchdog", fmt.Sprint(wdSecs))
 	cmd.Env = workerEnv()
-	cmd.Run()
+	runWithTimeout(cmd, time.Duration(wdSecs+60)*time.Second)
 	b, err := os.ReadFile(mm)
 	os.Remove(mm)
 	if err != nil || len(b) < 4 {
@@ -931,6 +931,24 @@ func minimiseProc(tp []uint32, budget int, ok func([]uint32) bool) []uint32 {
 		n--
 	}
 	return cur[:n]
+}
+
+// runWithTimeout runs cmd and kills it when it outlives d (the worker's own
+// watchdog should have fired long before).
+func runWithTimeout(cmd *exec.Cmd, d time.Duration) error {
+	if err := cmd.Start(); err != nil {
+		return err
+	}
+	done := make(chan error, 1)
+	go func() { done <- cmd.Wait() }()
+	select {
+	case err := <-done:
+		return err
+	case <-time.After(d):
+		cmd.Process.Kill()
+		<-done
+		return fmt.Errorf("killed after %v", d)
+	}
 }
 
 func firstLines(s string, n int) string {
